@@ -130,6 +130,13 @@ structure PWP (a : Raft) (st : StateRole) (l : RaftLog) (t : ProgressTracker) (r
   qa : ∀ x ∈ ms, x.msgType = .msgAppend → x ∈ a.msgs ∨ QSnap ms ∨ x.index ≤ l.lastIndex
   qr : ∀ x ∈ ms, x.msgType = .msgReadIndexResp → x ∈ a.msgs ∨ x.index ≤ l.committed
   sn : ∀ x ∈ a.msgs, x.msgType = .msgSnapshot → x ∈ ms
+  /-- the first index of the log has not moved down since the start of the call … -/
+  fi : a.raftLog.firstIndex ≤ l.firstIndex
+  /-- … and every new `MsgAppend` is anchored at or above the snapshot point (its entries were read
+  from the log: below the first index `RaftLog::entries` answers `Compacted`, and a `MsgSnapshot` is
+  queued instead) -/
+  qf : ∀ x ∈ ms, x.msgType = .msgAppend →
+    x ∈ a.msgs ∨ QSnap ms ∨ a.raftLog.firstIndex ≤ x.index + 1
 
 /-- **the per-call relation** -/
 def PW (a r : Raft) : Prop := PWP a r.state r.raftLog r.prs r.readOnly r.batchAppend r.msgs
@@ -147,13 +154,17 @@ theorem PW.qr {a r : Raft} (h : PW a r) : ∀ x ∈ r.msgs, x.msgType = .msgRead
     x ∈ a.msgs ∨ x.index ≤ r.raftLog.committed := PWP.qr h
 theorem PW.sn {a r : Raft} (h : PW a r) : ∀ x ∈ a.msgs, x.msgType = .msgSnapshot → x ∈ r.msgs :=
   PWP.sn h
+theorem PW.fi {a r : Raft} (h : PW a r) : a.raftLog.firstIndex ≤ r.raftLog.firstIndex := PWP.fi h
+theorem PW.qf {a r : Raft} (h : PW a r) : ∀ x ∈ r.msgs, x.msgType = .msgAppend →
+    x ∈ a.msgs ∨ QSnap r.msgs ∨ a.raftLog.firstIndex ≤ x.index + 1 := PWP.qf h
 
 /-- the start of a call -/
 theorem PW.start {a : Raft} (hinv : a.raftLog.Inv) (hnb : a.batchAppend = false)
     (hpo : a.state = .leader → QSnap a.msgs ∨ PAll a.raftLog.lastIndex a.prs)
     (hrd : a.state = .leader → ∀ p ∈ a.readOnly.pendingReadIndex, p.2.index ≤ a.raftLog.committed) :
     PW a a :=
-  ⟨hinv, hnb, hpo, hrd, fun _ hx _ => .inl hx, fun _ hx _ => .inl hx, fun _ hx _ => hx⟩
+  ⟨hinv, hnb, hpo, hrd, fun _ hx _ => .inl hx, fun _ hx _ => .inl hx, fun _ hx _ => hx,
+    Nat.le_refl _, fun _ hx _ => .inl hx⟩
 
 /-- any structure update that keeps the role, the log, the tracker, the pending reads, the batching
 flag and the queue keeps `PW` -/
@@ -176,8 +187,10 @@ theorem PW.mk' {a r : Raft} {x1 x2 x3 : Nat} {x4 : List ReadState} {x6 x7 x8 : N
 /-- replacing the log by one that represents the same logical log -/
 theorem PW.log {a r : Raft} {l : RaftLog} (hl : LogSame r.raftLog l) (h0 : PW a r) :
     PW a { r with raftLog := l } := by
+  have hfi : l.firstIndex = r.raftLog.firstIndex := by
+    rw [(hl.inv h0.inv).firstIndex_abs, h0.inv.firstIndex_abs, hl.abs]
   refine ⟨hl.inv h0.inv, h0.nb, fun hs => ?_, fun hs p hp => ?_, fun x hx hty => ?_,
-    fun x hx hty => ?_, h0.sn⟩
+    fun x hx hty => ?_, h0.sn, by rw [hfi]; exact h0.fi, h0.qf⟩
   · show QSnap r.msgs ∨ PAll l.lastIndex r.prs
     rw [hl.last]; exact h0.po hs
   · exact Nat.le_trans (h0.rd hs p hp) hl.commit
@@ -191,7 +204,7 @@ theorem PW.log {a r : Raft} {l : RaftLog} (hl : LogSame r.raftLog l) (h0 : PW a 
 theorem PW.prs {a r : Raft} {t : ProgressTracker} (h0 : PW a r)
     (ht : r.state = .leader → QSnap r.msgs ∨ PAll r.raftLog.lastIndex t) :
     PW a { r with prs := t } :=
-  ⟨h0.inv, h0.nb, ht, h0.rd, h0.qa, h0.qr, h0.sn⟩
+  ⟨h0.inv, h0.nb, ht, h0.rd, h0.qa, h0.qr, h0.sn, h0.fi, h0.qf⟩
 
 /-- writing back one progress -/
 theorem PW.setPr {a r : Raft} {id : Nat} {pr : Progress} (h0 : PW a r)
@@ -208,7 +221,7 @@ theorem PW.setPr {a r : Raft} {id : Nat} {pr : Progress} (h0 : PW a r)
 theorem PW.nonleader {a r : Raft} (h0 : PW a r) {st : StateRole} {t : ProgressTracker}
     {ro : ReadOnly} (hst : st ≠ .leader) :
     PWP a st r.raftLog t ro r.batchAppend r.msgs :=
-  ⟨h0.inv, h0.nb, fun h => absurd h hst, fun h => absurd h hst, h0.qa, h0.qr, h0.sn⟩
+  ⟨h0.inv, h0.nb, fun h => absurd h hst, fun h => absurd h hst, h0.qa, h0.qr, h0.sn, h0.fi, h0.qf⟩
 
 /-! ### `send` -/
 
@@ -218,12 +231,20 @@ theorem send_pw {a r r' : Raft} {m : Message} (h : r.send m = .ok r')
   rw [send_eq r r' m h]
   have hty : wqT (r.sendFill m).msgType = false := by rw [sendFill_msgType]; exact hm
   refine ⟨h0.inv, h0.nb, fun hs => ?_, h0.rd, fun x hx hx' => ?_, fun x hx hx' => ?_,
-    fun x hx hx' => List.mem_append_left _ (h0.sn x hx hx')⟩
+    fun x hx hx' => List.mem_append_left _ (h0.sn x hx hx'), h0.fi, fun x hx hx' => ?_⟩
   · rcases h0.po hs with c | c
     · exact .inl (c.append_left _)
     · exact .inr c
   · rcases List.mem_append.1 hx with hx | hx
     · rcases h0.qa x hx hx' with c | c | c
+      · exact .inl c
+      · exact .inr (.inl (c.append_left _))
+      · exact .inr (.inr c)
+    · rw [List.mem_singleton.1 hx] at hx'
+      rw [hx'] at hty; cases hty
+  rotate_left
+  · rcases List.mem_append.1 hx with hx | hx
+    · rcases h0.qf x hx hx' with c | c | c
       · exact .inl c
       · exact .inr (.inl (c.append_left _))
       · exact .inr (.inr c)
@@ -237,10 +258,21 @@ theorem send_pw {a r r' : Raft} {m : Message} (h : r.send m = .ok r')
 /-- appending one message to the queue, in general -/
 theorem PW.push {a r : Raft} (h0 : PW a r) (x : Message)
     (ha : x.msgType = .msgAppend → QSnap r.msgs ∨ x.index ≤ r.raftLog.lastIndex)
-    (hr : x.msgType = .msgReadIndexResp → x.index ≤ r.raftLog.committed) :
+    (hr : x.msgType = .msgReadIndexResp → x.index ≤ r.raftLog.committed)
+    (hf : x.msgType = .msgAppend → QSnap r.msgs ∨ r.raftLog.firstIndex ≤ x.index + 1) :
     PW a { r with msgs := r.msgs ++ [x] } := by
   refine ⟨h0.inv, h0.nb, fun hs => ?_, h0.rd, fun y hy hy' => ?_, fun y hy hy' => ?_,
-    fun y hy hy' => List.mem_append_left _ (h0.sn y hy hy')⟩
+    fun y hy hy' => List.mem_append_left _ (h0.sn y hy hy'), h0.fi, fun y hy hy' => ?_⟩
+  rotate_right
+  · rcases List.mem_append.1 hy with hy | hy
+    · rcases h0.qf y hy hy' with c | c | c
+      · exact .inl c
+      · exact .inr (.inl (c.append_left _))
+      · exact .inr (.inr c)
+    · rw [List.mem_singleton.1 hy] at hy' ⊢
+      rcases hf hy' with c | c
+      · exact .inr (.inl (c.append_left _))
+      · exact .inr (.inr (Nat.le_trans h0.fi c))
   · rcases h0.po hs with c | c
     · exact .inl (c.append_left _)
     · exact .inr c
@@ -263,7 +295,7 @@ theorem PW.poison {a r : Raft} (h0 : PW a r) (x : Message) (hx : x.msgType = .ms
     (t : ProgressTracker) : PW a { r with msgs := r.msgs ++ [x], prs := t } := by
   have hq : QSnap (r.msgs ++ [x]) := ⟨x, List.mem_append_right _ (List.mem_singleton.2 rfl), hx⟩
   refine ⟨h0.inv, h0.nb, fun _ => .inl hq, h0.rd, fun y _ _ => .inr (.inl hq), fun y hy hy' => ?_,
-    fun y hy hy' => List.mem_append_left _ (h0.sn y hy hy')⟩
+    fun y hy hy' => List.mem_append_left _ (h0.sn y hy hy'), h0.fi, fun y _ _ => .inr (.inl hq)⟩
   rcases List.mem_append.1 hy with hy | hy
   · exact h0.qr y hy hy'
   · rw [List.mem_singleton.1 hy, hx] at hy'; cases hy'
